@@ -101,7 +101,7 @@ def run(ctx: Ctx) -> int:
         "symbolic characters drawn from {a, space, /, //, escaped quote, :} are kept verbatim with the trailing comment split off; unknown opcodes become UnsupportedInstruction with "
         "the verbatim line; recorded line numbers with 0-2 blank / comment lines around. The finite part - dispatch of every opcode of the independent AVM table (prefix pairs "
         "included), every field name, print/parse round trip, base64/base32 forms - is enumerated completely and has no symbolic dimension",
-        [PI.parse_line, PI._parse_int, PI._split_instruction_into_tokens, PI._parse_byte_arguments, PTF.parse_transaction_field, PGF.parse_global_field, PT.first_pass],
+        [lambda: PI.parse_line, lambda: PI._parse_int, lambda: PI._split_instruction_into_tokens, lambda: PI._parse_byte_arguments, lambda: PTF.parse_transaction_field, lambda: PGF.parse_global_field, lambda: PT.first_pass],
         {"decimal_digits": 4, "hex_digits": "2/3", "octal_digits": 3, "quoted_chars": 3, "blanks": "0..2"},
         ["base64/base32 decoding happens in C (CrossHair realises the input): only fixed examples; literals longer than the digit bounds and 20-digit integers are outside"],
         timeout_quick=150, timeout_thorough=600, extra_results=table_check(),
